@@ -26,7 +26,7 @@ pub const ACTIONS: [&str; 13] = [
 ];
 
 fn zdt(ns: i128, zone: &str) -> ZonedDateTime {
-    ZonedDateTime::try_new(ns, Calendar::default(), TimeZone::try_from_str(zone).unwrap()).unwrap()
+    ZonedDateTime::try_new(ns, Calendar::default(), crate::imp::zone_of(zone).expect("zone")).unwrap()
 }
 
 /// Execute one action through the convenience API (shared = true) or through the core with a fresh provider.
@@ -310,7 +310,7 @@ impl Space for WrapperPairs {
     fn eval(&self, i: u64, out: &mut Out) {
         let n = self.receivers.len();
         let (a, b) = (self.receivers[i as usize / n], self.receivers[i as usize % n]);
-        let mk = |r: (i128, &str, &str)| ZonedDateTime::try_new(r.0, r.2.parse::<Calendar>().unwrap(), TimeZone::try_from_str(r.1).unwrap()).unwrap();
+        let mk = |r: (i128, &str, &str)| ZonedDateTime::try_new(r.0, r.2.parse::<Calendar>().unwrap(), crate::imp::zone_of(r.1).expect("zone")).unwrap();
         let (za, zb) = (mk(a), mk(b));
         let p = FsTzdbProvider::default();
         if a != b {
